@@ -4,10 +4,16 @@
   through the model `Pipeline.act`.  Core-only, executable.
 
   Request:   pl <shape> <N> <gochannel cfg> <wiring> <yield> <seed> <faults> <event>*
-     shape   stages separated by `/`, each the comma separated list of successor stages; `-` = no handler stage
-             (`1/2` chain of two; `1,2/3/3/4` diamond: fan-out at 0, fan-in at 3, sink 4)
-     N       number of source messages, lineages 0..N-1
-     faults  `-` or comma separated `<kind>@<stage>.<call>`, kind ∈ he hp pe pp pa
+     shape   stages separated by `/`, each the comma separated list of successor stages, optionally followed by
+             `x<w>`: the handler of that stage returns w output messages per input; `-` = no handler stage
+             (`1/2` chain of two; `1,2/3/3/4` diamond: fan-out at 0, fan-in at 3, sink 4; `1x2/2` stage 0 emits 2 outputs)
+     N       number of source messages, lineages 0..N-1.  DERIVED LINEAGES: output #j of a stage of width w working on
+             lineage l carries lineage l·w + j; so the copies that reach stage S descend from source lineage
+             l / (product of the widths of the stages before S), and the leaves of source lineage l are
+             l·P … l·P + P − 1 with P the product of all widths.  The sink must see EVERY leaf at least once.
+     faults  `-` or comma separated `<kind>@<stage>.<call>`, kind ∈ he hp pe pp pa (call = number of the handler call
+             (he hp) / publisher call (pe pp pa) of that stage), or `px@<stage>.<k>.<j>`: the publisher refuses the call
+             that contains output #j of the k-th handler invocation of that stage
      events  sc.L            harness is about to call Publish(source topic, lineage L)
              sr.L.ok|err     that call returned
              hs.S.L.I        handler function of stage S entered with a copy of lineage L; I = invocation number
@@ -15,8 +21,10 @@
              ft.S.L.I.K      scripted fault K injected into invocation I
              pc.S.L.I        publisher wrapper entered (handler returned its output)
              early.S.L.I     … and found the consumed copy ALREADY settled
-             pi.S.L.I        the output is about to be handed to the real GoChannel.Publish (no fault)
-             pr.S.L.I.R      the publisher wrapper returns R ∈ ok err panic to the Router
+             pi.S.L.I.J      output #J is about to be handed to the real GoChannel.Publish (no fault); one event per
+                             message of the call
+             po.S.L.I.J      the real Publish returned nil for a call containing output #J: the next topic accepted it
+             pr.S.L.I.R      the publisher wrapper returns R ∈ ok err panic to the Router (once per Publish call)
              st.S.L.I.ack|nack   the consumed copy of invocation I was observed settled
              sk.L            the sink subscription received a copy of lineage L
              end             quiescence reached: nothing in flight (every source lineage at the sink is CHECKED, not assumed)
@@ -36,7 +44,8 @@ inductive Ev
   | fault (st l inv : Nat) (k : FaultKind)
   | pubCall (st l inv : Nat)
   | early (st l inv : Nat)
-  | pubInner (st l inv : Nat)
+  | pubInner (st l inv j : Nat)
+  | pubAccepted (st l inv j : Nat)
   | pubRet (st l inv : Nat) (r : PubRes)
   | settle (st l inv : Nat) (ack : Bool)
   | sinkRecv (l : Nat)
@@ -50,6 +59,7 @@ def parseKind : String → Option FaultKind
   | "pe" => some .pubErr
   | "pp" => some .pubPanic
   | "pa" => some .pubErrAfterPartial
+  | "px" => some .pubErr      -- refusal keyed by output position: for the model a publish error like any other
   | _ => none
 
 def parseEv (tok : String) : Option Ev :=
@@ -63,7 +73,8 @@ def parseEv (tok : String) : Option Ev :=
   | ["hs", s, l, i] => do some (.hStart (← s.toNat?) (← l.toNat?) (← i.toNat?))
   | ["pc", s, l, i] => do some (.pubCall (← s.toNat?) (← l.toNat?) (← i.toNat?))
   | ["early", s, l, i] => do some (.early (← s.toNat?) (← l.toNat?) (← i.toNat?))
-  | ["pi", s, l, i] => do some (.pubInner (← s.toNat?) (← l.toNat?) (← i.toNat?))
+  | ["pi", s, l, i, j] => do some (.pubInner (← s.toNat?) (← l.toNat?) (← i.toNat?) (← j.toNat?))
+  | ["po", s, l, i, j] => do some (.pubAccepted (← s.toNat?) (← l.toNat?) (← i.toNat?) (← j.toNat?))
   | ["ft", s, l, i, k] => do some (.fault (← s.toNat?) (← l.toNat?) (← i.toNat?) (← parseKind k))
   | ["pr", s, l, i, "ok"] => do some (.pubRet (← s.toNat?) (← l.toNat?) (← i.toNat?) .ok)
   | ["pr", s, l, i, "err"] => do some (.pubRet (← s.toNat?) (← l.toNat?) (← i.toNat?) .err)
@@ -72,10 +83,28 @@ def parseEv (tok : String) : Option Ev :=
   | ["st", s, l, i, "nack"] => do some (.settle (← s.toNat?) (← l.toNat?) (← i.toNat?) false)
   | _ => none
 
-def parseShape (s : String) : Option Shape :=
-  if s = "-" then some ⟨[]⟩ else do
-    let rows ← (s.splitOn "/").mapM (fun row => (row.splitOn ",").mapM (fun x => x.toNat?))
-    some ⟨rows⟩
+/-- successor lists and widths of the stages -/
+def parseShape (s : String) : Option (List (List Nat) × List Nat) :=
+  if s = "-" then some ([], []) else do
+    let rows ← (s.splitOn "/").mapM (fun row => match row.splitOn "x" with
+      | [succ] => do some (← (succ.splitOn ",").mapM (fun x => x.toNat?), 1)
+      | [succ, w] => do
+        let w ← w.toNat?
+        if w = 0 then none else some (← (succ.splitOn ",").mapM (fun x => x.toNat?), w)
+      | _ => none)
+    some (rows.map (·.1), rows.map (·.2))
+
+/-- the shape handed to the model: a handler that emits w outputs owes w copies to every subscription of its output
+    topic – in the model that is the successor list repeated w times (the model follows SOURCE lineages; which of
+    the w derived lineages a copy carries is tracked by the monitor only) -/
+def modelShape (succ : List (List Nat)) (widths : List Nat) : Shape :=
+  ⟨(succ.zip widths).map (fun (r, w) => (List.replicate w r).flatten)⟩
+
+/-- number of derived lineages per source lineage among the copies that reach stage `st` -/
+def fanBefore (widths : List Nat) (st : Nat) : Nat := (widths.take st).foldl (· * ·) 1
+
+/-- the source lineage a copy of lineage `l` at stage `st` descends from -/
+def rootOf (widths : List Nat) (st l : Nat) : Nat := l / fanBefore widths st
 
 def parseFaults (s : String) : Option (List Fault) :=
   if s = "-" then some [] else
@@ -83,12 +112,18 @@ def parseFaults (s : String) : Option (List Fault) :=
       | [k, rest] => match rest.splitOn "." with
         | [st, call] => do
           let _ ← call.toNat?
-          some ⟨← parseKind k, ← st.toNat?⟩
+          if k = "px" then none else some ⟨← parseKind k, ← st.toNat?⟩
+        | [st, call, pos] => do
+          let _ ← call.toNat?
+          let _ ← pos.toNat?
+          if k = "px" then some ⟨.pubErr, ← st.toNat?⟩ else none
         | _ => none
       | _ => none)
 
 structure Req where
-  shape  : Shape
+  shape  : Shape          -- the model's shape (`modelShape`)
+  stages : Nat
+  widths : List Nat
   n      : Nat
   faults : List Fault
   evs    : List Ev
@@ -98,80 +133,95 @@ def parseReq (fields : List String) : Option Req :=
   | "pl" :: shape :: n :: _gc :: _wiring :: yld :: seed :: faults :: evs => do
     let _ ← yld.toNat?
     let _ ← seed.toNat?
-    some { shape := ← parseShape shape, n := ← n.toNat?, faults := ← parseFaults faults, evs := ← evs.mapM parseEv }
+    let (succ, widths) ← parseShape shape
+    some { shape := modelShape succ widths, stages := succ.length, widths := widths, n := ← n.toNat?,
+           faults := ← parseFaults faults, evs := ← evs.mapM parseEv }
   | _ => none
 
 /-! ### the property monitor -/
 
 structure MS where
-  srcCalled : List Nat := []                  -- lineages whose source Publish was started
-  srcOk     : List Nat := []                  -- lineages whose source Publish returned nil
-  accepted  : List Nat := []                  -- invocations whose output Publish returned nil to the Router
+  srcCalled : List Nat := []                  -- source lineages whose source Publish was started
+  srcOk     : List Nat := []                  -- source lineages whose source Publish returned nil
+  accepted  : List (Nat × Nat) := []          -- (invocation, output position) accepted by the next topic
   starts    : List (Nat × Nat × Nat) := []    -- (stage, lineage, invocation) of every handler start
   nacks     : List (Nat × Nat × Nat) := []
-  sunk      : List Nat := []
+  sunk      : List Nat := []                  -- (derived) lineages received by the sink
   done      : Bool := false
 
-/-- one event; `Except.error rule` = the property is violated -/
-def monStep (m : MS) : Ev → Except String MS
+def nackedAllRedelivered (m : MS) : Bool :=
+  m.nacks.all (fun (st, l, inv) => m.starts.any (fun (st', l', inv') => st' == st && l' == l && inv < inv'))
+
+/-- every leaf lineage of every successfully published source lineage is at the sink;
+    `leaves` = number of derived lineages per source lineage at the sink -/
+def allDelivered (leaves : Nat) (m : MS) : Bool :=
+  m.srcOk.all (fun l => (List.range leaves).all (fun k => m.sunk.contains (l * leaves + k)))
+
+/-- one event; `Except.error rule` = the property is violated.  `widths` = outputs per input of every stage. -/
+def monStep (widths : List Nat) (m : MS) : Ev → Except String MS
   | .srcCall l => .ok { m with srcCalled := l :: m.srcCalled }
   | .srcRet l ok => .ok (if ok then { m with srcOk := l :: m.srcOk } else m)
   | .hStart st l inv => .ok { m with starts := (st, l, inv) :: m.starts }
   | .fault .. => .ok m
   | .pubCall .. => .ok m
   | .pubInner .. => .ok m
-  -- "A stage gives a message up (Ack) only after the next topic accepted its output"
+  | .pubRet .. => .ok m
+  | .pubAccepted _ _ inv j => .ok { m with accepted := (inv, j) :: m.accepted }
+  -- "A stage gives a message up (Ack) only after the next topic accepted its output" – every output of that invocation
   | .early .. => .error "ack_after_accept(settled-before-publish-returned)"
-  | .pubRet _ _ inv r => .ok (if r = .ok then { m with accepted := inv :: m.accepted } else m)
   | .settle st l inv ack =>
     if ack then
-      if m.accepted.contains inv then .ok m else .error "ack_after_accept(ack-without-accepted-output)"
+      if (List.range (widths.getD st 1)).all (fun j => m.accepted.contains (inv, j)) then .ok m
+      else .error "ack_after_accept(ack-without-accepted-output)"
     else .ok { m with nacks := (st, l, inv) :: m.nacks }
   -- "everything arriving at the final topic derives from a message that was really published at the source"
   | .sinkRecv l =>
-    if m.srcCalled.contains l then .ok { m with sunk := l :: m.sunk } else .error "sink_sound(lineage-never-published)"
+    if m.srcCalled.contains (rootOf widths widths.length l) then .ok { m with sunk := l :: m.sunk }
+    else .error "sink_sound(lineage-never-published)"
   | .finish =>
-    -- "once the faults stop it reaches the final topic at least once"
-    if !(m.srcOk.all (fun l => m.sunk.contains l)) then .error "delivered(lineage-missing-at-sink)"
+    -- "once the faults stop it reaches the final topic at least once" (every derived lineage)
+    if !(allDelivered (fanBefore widths widths.length) m) then .error "delivered(lineage-missing-at-sink)"
     -- "until then the message is redelivered"
-    else if !(m.nacks.all (fun (st, l, inv) => m.starts.any (fun (st', l', inv') => st' == st && l' == l && inv < inv'))) then
-      .error "redelivered(nacked-copy-never-redelivered)"
+    else if !(nackedAllRedelivered m) then .error "redelivered(nacked-copy-never-redelivered)"
     else .ok { m with done := true }
   | .stuck =>
-    if !(m.srcOk.all (fun l => m.sunk.contains l)) then .error "delivered(stuck:lineage-missing-at-sink)"
-    else if !(m.nacks.all (fun (st, l, inv) => m.starts.any (fun (st', l', inv') => st' == st && l' == l && inv < inv'))) then
-      .error "redelivered(stuck:nacked-copy-never-redelivered)"
+    if !(allDelivered (fanBefore widths widths.length) m) then .error "delivered(stuck:lineage-missing-at-sink)"
+    else if !(nackedAllRedelivered m) then .error "redelivered(stuck:nacked-copy-never-redelivered)"
     else .error "stuck(no-quiescence-within-liveness-bound)"
 
-def monRun : MS → List Ev → String
+def monRun (widths : List Nat) : MS → List Ev → String
   | m, [] => if m.done then "ok" else "bad-op"
   | m, e :: rest =>
     if m.done then "bad-op" else
-    match monStep m e with
-    | .ok m' => monRun m' rest
+    match monStep widths m e with
+    | .ok m' => monRun widths m' rest
     | .error r => "violated:" ++ r
 
 def monitor (fields : List String) : String :=
   match parseReq fields with
-  | some r => monRun {} r.evs
+  | some r => monRun r.widths {} r.evs
   | none => "bad-op"
 
-/-! ### conformance: the recorded trace must be a run of the model that ends in a terminal state -/
+/-! ### conformance: the recorded trace must be a run of the model that ends in a terminal state
+
+  The model follows source lineages: an event about a copy of (derived) lineage `l` at stage `st` is an event about a
+  token of source lineage `rootOf widths st l`.  The handler's outputs are handed to the next topic by ONE Publish call;
+  the model's `publishOk` is taken at the announcement of output #0 of that call. -/
 
 def findTok (s : St) (t : Tok) : Option Nat := s.toks.findIdx? (· == t)
 
 /-- the model action an event stands for (`none` = no model step: the event only matters to the monitor);
     `some none` = the event has no enabled counterpart -/
-def toAction (p : Shape) (s : St) : Ev → Option (Option Action)
+def toAction (p : Shape) (widths : List Nat) (s : St) : Ev → Option (Option Action)
   | .srcCall l => some ((s.srcs.findIdx? (· == l)).map .publishSource)
-  | .hStart st l _ => some ((findTok s ⟨l, st, .pending⟩).map .deliver)
+  | .hStart st l _ => some ((findTok s ⟨rootOf widths st l, st, .pending⟩).map .deliver)
   | .fault st l _ k => some (do
-      let i ← findTok s ⟨l, st, .handling⟩
+      let i ← findTok s ⟨rootOf widths st l, st, .handling⟩
       let j ← s.faults.findIdx? (· == ⟨k, st⟩)
       some (.fault i j))
-  | .pubInner st l _ => some ((findTok s ⟨l, st, .handling⟩).map .publishOk)
-  | .settle st l _ true => some ((findTok s ⟨l, st, .published⟩).map .ack)
-  | .sinkRecv l => some ((findTok s ⟨l, p.n, .pending⟩).map .sink)
+  | .pubInner st l _ 0 => some ((findTok s ⟨rootOf widths st l, st, .handling⟩).map .publishOk)
+  | .settle st l _ true => some ((findTok s ⟨rootOf widths st l, st, .published⟩).map .ack)
+  | .sinkRecv l => some ((findTok s ⟨rootOf widths p.n l, p.n, .pending⟩).map .sink)
   | _ => none
 
 inductive ConfRes
@@ -191,24 +241,24 @@ def ConfRes.render : ConfRes → String
   | .notTerminal t k => s!"reject:end:model-not-terminal({t}-tokens,{k}-sources-left)"
   | .stuckTerminal => "reject:stuck:model-terminal"
 
-def confRun (p : Shape) : St → Nat → List Ev → ConfRes
+def confRun (p : Shape) (widths : List Nat) : St → Nat → List Ev → ConfRes
   | _, _, [] => .bad
   | s, _, [.finish] => if (enabled p s).isEmpty then .ok else .notTerminal s.toks.length s.srcs.length
   | s, _, [.stuck] => if (enabled p s).isEmpty then .stuckTerminal else .stuck
   | _, _, .finish :: _ :: _ => .bad
   | _, _, .stuck :: _ :: _ => .bad
   | s, idx, e :: rest =>
-    match toAction p s e with
-    | none => confRun p s (idx + 1) rest
+    match toAction p widths s e with
+    | none => confRun p widths s (idx + 1) rest
     | some none => .reject idx "no-enabled-model-step"
     | some (some a) =>
       match act p s a with
-      | some s' => confRun p s' (idx + 1) rest
+      | some s' => confRun p widths s' (idx + 1) rest
       | none => .reject idx "model-step-not-enabled"
 
 def conformance (fields : List String) : String :=
   match parseReq fields with
-  | some r => (confRun r.shape (init (List.range r.n) r.faults) 0 r.evs).render
+  | some r => (confRun r.shape r.widths (init (List.range r.n) r.faults) 0 r.evs).render
   | none => "bad-op"
 
 end Wm.Pipeline.Mon
